@@ -5,6 +5,11 @@
 //	graph : the stages generatePlan -> collectGarbage -> insertHibernateBoot(d) for d = 0..8 called one by
 //	        one on a fabricated commit graph, and the composed prepareRunPlan(commits, d) on the same
 //	        graph in reversed slice order; the plans are validated by the lifecycle checker.
+//	        Every fabricated commit carries a committer timestamp (none, equal, growing, falling, random, skewed).
+//	        Kind wide: forks / octopus merges of more than eight branches.
+//	scale-*: histories with 10^3 .. 10^6 branch indexes (planlib.ScaleGraph; the 2^16 boundary in the quick tier):
+//	        generatePlan -> collectGarbage -> insertHibernateBoot(d) for a few d, and prepareRunPlan(commits, d) once;
+//	        judged by the fast lifecycle validator (the list-based models are quadratic and are not run at this size).
 package main
 
 import (
@@ -72,6 +77,7 @@ func wellFormed(r *rand.Rand, deletes bool) []Sx {
 	var live []int
 	next := 1
 	commit := 0
+	wideMerges := 0
 	steps := 2 + r.Intn(45)
 	if r.Intn(5) == 0 {
 		steps = 1 + r.Intn(6)
@@ -110,7 +116,11 @@ func wellFormed(r *rand.Rand, deletes bool) []Sx {
 		case x < 14:
 			b := live[r.Intn(len(live))]
 			items := []int{b}
-			for k := 1 + r.Intn(3); k > 0; k-- {
+			width := 1 + r.Intn(3)
+			if r.Intn(12) == 0 { // a fork of more than eight branches
+				width = 7 + r.Intn(6)
+			}
+			for k := width; k > 0; k-- {
 				t := newID()
 				items = append(items, t)
 				live = append(live, t)
@@ -119,6 +129,13 @@ func wellFormed(r *rand.Rand, deletes bool) []Sx {
 		case x < 17 && len(live) >= 2:
 			perm := r.Perm(len(live))
 			k := 2 + r.Intn(minInt(len(live)-1, 3))
+			if r.Intn(3) == 0 && wideMerges < 2 && steps <= 16 {
+				// an octopus merge of (almost) everything that is alive; at most twice, in short plans only: the abstract
+				// executor concatenates the incorporated sets of the participants, so repeated merges of the
+				// same many branches make them grow geometrically
+				k = len(live) - r.Intn(minInt(len(live)-1, 3))
+				wideMerges++
+			}
 			var parts []int
 			for _, pi := range perm[:k] {
 				parts = append(parts, live[pi])
@@ -272,6 +289,7 @@ func sweep(c *Config, kind string, n int, keep func([][]int) bool, takeOrder fun
 							continue
 						}
 						g := pl.FromParents(parents, ranks)
+						g.Times = pl.SweepTimes(n, m, k)
 						cs, id := g.Commits(false)
 						key := "panic"
 						Catch(func() { key = pl.PlanString(verifapi.GeneratePlan(cs), id) })
@@ -304,13 +322,140 @@ func sweep(c *Config, kind string, n int, keep func([][]int) bool, takeOrder fun
 	}
 }
 
+// ---------- large histories ----------
+
+type scaleSpec struct {
+	shape              string
+	size, hmode, tmode int
+	gseed              int64
+	dists              []int // insertHibernateBoot distances (on the collected plan)
+	full               int   // distance of the composed prepareRunPlan call, -1: none
+}
+
+func scaleLine(sp scaleSpec) []Sx {
+	g := pl.ScaleGraph(sp.shape, sp.size, sp.hmode, sp.tmode, sp.gseed)
+	cs, id := g.Commits(false)
+	var obs []Sx
+	var gen, gc []verifapi.VerifAction
+	ok := false
+	obs = append(obs, pl.Guard("gen", func() Sx {
+		gen = verifapi.GeneratePlan(cs)
+		return T("gen", T("len", I(len(gen))))
+	}))
+	if gen != nil && (len(sp.dists) > 0 || sp.full < 0) {
+		obs = append(obs, pl.Guard("gc", func() Sx {
+			gc = verifapi.CollectGarbage(gen)
+			ok = true
+			return pl.PlanSx("gc", gc, id)
+		}))
+	}
+	if ok {
+		for _, d := range sp.dists {
+			d := d
+			obs = append(obs, pl.Guard("hb", func() Sx {
+				sx := pl.PlanSx("hb", verifapi.InsertHibernateBoot(gc, d), id)
+				return T("hb", append([]Sx{I(d)}, sx.Args()...)...)
+			}))
+		}
+	}
+	if sp.full >= 0 {
+		obs = append(obs, pl.Guard("full", func() Sx {
+			sx := pl.PlanSx("full", verifapi.PrepareRunPlan(cs, sp.full), id)
+			return T("full", append([]Sx{I(sp.full)}, sx.Args()...)...)
+		}))
+	}
+	ds := make([]Sx, len(sp.dists))
+	for i, d := range sp.dists {
+		ds[i] = I(d)
+	}
+	fs := []Sx{T("kind", A("scale-"+sp.shape)), T("nt", B(true))}
+	fs = append(fs, pl.ScaleFields(sp.shape, sp.size, sp.hmode, sp.tmode, sp.gseed, g)...)
+	fs = append(fs, T("dists", ds...), T("fulld", I(sp.full)))
+	return append(fs, T("obs", obs...))
+}
+
+func runScale(c *Config, specs []scaleSpec, workers int) func() {
+	out := make([][]Sx, len(specs))
+	var wg sync.WaitGroup
+	next := make(chan int, len(specs))
+	for i := range specs {
+		next <- i
+	}
+	close(next)
+	for w := 0; w < workers; w++ {
+		wg.Add(1)
+		go func() {
+			defer wg.Done()
+			for i := range next {
+				out[i] = scaleLine(specs[i])
+			}
+		}()
+	}
+	return func() {
+		wg.Wait()
+		for i, fs := range out {
+			c.Emit(fs...)
+			out[i] = nil
+		}
+	}
+}
+
+func scaleSpecs(c *Config) []scaleSpec {
+	r := c.Rng
+	var specs []scaleSpec
+	mk := func(shape string, size int, dists []int, full int) {
+		specs = append(specs, scaleSpec{shape, size, r.Intn(3), r.Intn(pl.NumTimeModes), int64(r.Intn(1 << 30)), dists, full})
+	}
+	for _, sh := range pl.ScaleShapes {
+		mk(sh, 1000+r.Intn(25), []int{1, 2 + r.Intn(7), 9 + r.Intn(60)}, r.Intn(4))
+	}
+	for _, sh := range []string{"comb", "roots", "ladder"} {
+		mk(sh, 10000+r.Intn(300), []int{1 + r.Intn(3)}, -1)
+	}
+	mk("bush", 2000+r.Intn(100), []int{1 + r.Intn(8)}, 2)
+	// the 16-bit boundary of a branch index: c-1, c, c+1 and above
+	mk("star", 65535, nil, -1)
+	mk("star", 65536, nil, 1)
+	mk("star", 65537, []int{2}, -1)
+	mk("diamonds", 65536+1+r.Intn(1000), nil, 1)
+	if c.Thorough() {
+		mk("diamonds", 10000+r.Intn(300), []int{1, 2}, 0)
+		mk("starmerge", 10000+r.Intn(300), []int{1, 20000}, 3)
+		mk("diamonds", 65536+1+r.Intn(1000), []int{1}, -1)
+		for _, n := range []int{255, 256, 257, 32767, 32768, 32769} {
+			mk("star", n, []int{1}, 0)
+		}
+		mk("comb", 65536+1+r.Intn(3000), []int{1, 3}, 2)
+		mk("roots", 65536+1+r.Intn(3000), []int{1}, 0)
+		mk("starmerge", 65536+1+r.Intn(3000), []int{1, 70000}, 1)
+		for _, sh := range []string{"comb", "diamonds", "roots", "ladder", "star"} {
+			mk(sh, 100000+r.Intn(3000), []int{1 + r.Intn(4)}, -1)
+		}
+		mk("bush", 20000+r.Intn(1000), []int{1, 5}, 3)
+		mk("spine", 1000000, []int{1}, -1)
+		mk("star", 1000000, []int{1}, -1)
+	}
+	return specs
+}
+
 func main() {
 	full := flag.Bool("full", false, "thorough tier: all 720 hash orders of every 6-commit DAG instead of every 24th")
 	c := Setup()
 	defer c.Close()
 	if c.Replay != "" {
 		for _, cs := range c.ReplayCases() {
-			if f, ok := cs.Field("ops"); ok {
+			if shape, size, hmode, tmode, gseed, ok := pl.ParseScale(cs); ok {
+				sp := scaleSpec{shape: shape, size: size, hmode: hmode, tmode: tmode, gseed: gseed, full: -1}
+				if f, ok := cs.Field("dists"); ok {
+					for _, x := range f.Args() {
+						sp.dists = append(sp.dists, x.Int())
+					}
+				}
+				if f, ok := cs.Field("fulld"); ok {
+					sp.full = f.Args()[0].Int()
+				}
+				c.Emit(scaleLine(sp)...)
+			} else if f, ok := cs.Field("ops"); ok {
 				d := 0
 				if df, ok := cs.Field("d"); ok {
 					d = df.Args()[0].Int()
@@ -328,6 +473,15 @@ func main() {
 		workers = 10
 	}
 	r := c.Rng
+	// the large cases are planned in the background while the small ones are generated, and written last
+	emitScale := func() {}
+	if c.Tier != "search" {
+		emitScale = runScale(c, scaleSpecs(c), 3)
+	}
+	times := func(g pl.Graph) pl.Graph {
+		g.Times = pl.TimesFor(r.Intn(pl.NumTimeModes), g.N, r)
+		return g
+	}
 	dist := func() int {
 		if r.Intn(10) == 0 {
 			return 9 + r.Intn(30)
@@ -365,15 +519,22 @@ func main() {
 	}
 	for i := c.Count(1000, 8000); i > 0; i-- {
 		n := 6 + r.Intn(2)
-		g := pl.FromParents(pl.DagFromMask(n, r.Intn(pl.NumMasks(n))), r.Perm(n))
+		g := times(pl.FromParents(pl.DagFromMask(n, r.Intn(pl.NumMasks(n))), r.Perm(n)))
 		c.Emit(graphFields(fmt.Sprintf("smp%d", n), g, 0, graphObs(g))...)
 	}
 	for i := c.Count(2500, 30000); i > 0; i-- {
-		g := pl.RandomGraph(r, 14)
+		g := times(pl.RandomGraph(r, 14))
 		c.Emit(graphFields("rnd", g, 0, graphObs(g))...)
 	}
 	for i := c.Count(150, 1500); i > 0; i-- {
-		g := pl.RandomGraph(r, 40)
+		g := times(pl.RandomGraph(r, 40))
 		c.Emit(graphFields("rndbig", g, 0, graphObs(g))...)
 	}
+	// forks of more than eight branches and octopus merges of more than eight parents
+	for i := c.Count(14, 1200); i > 0; i-- {
+		ps := pl.WideGraph(r, 13)
+		g := times(pl.FromParents(ps, r.Perm(len(ps))))
+		c.Emit(graphFields("wide", g, 0, graphObs(g))...)
+	}
+	emitScale()
 }
